@@ -445,7 +445,11 @@ impl<'a> Driver<'a> {
     }
 
     fn gen_mutation(&mut self) -> Mutation {
-        match self.rng.below(10) {
+        match self.rng.below(14) {
+            10 => Mutation::SetField { field: self.rng.below(8) as u8, byte: *self.rng.pick(&[0u8, 0xFF, 1]) },
+            11 => Mutation::ByteSet { field: self.rng.below(8) as u8, pos: self.rng.next_u64() as u32, byte: self.rng.below(256) as u8 },
+            12 => Mutation::TruncLast { n: *self.rng.pick(&[1u8, 1, 2, 15, 16, 17]) },
+            13 => Mutation::Flip { field: self.rng.below(8) as u8, pos: u32::MAX - self.rng.below(2) as u32, bit: self.rng.below(8) as u8 },
             0..=3 => Mutation::Flip {
                 field: self.rng.below(8) as u8,
                 pos: match self.rng.below(3) {
@@ -566,7 +570,12 @@ impl<'a> Driver<'a> {
                 } else {
                     PskKind::Configured
                 };
-                let idx = if kind == PskKind::Configured { self.rng.range(10, 30) as u8 } else { self.rng.below(12) as u8 };
+                let idx = if kind == PskKind::Configured {
+                    // out-of-range slot, or (valid call) a slot the pattern does not use
+                    if self.rng.chance(1, 3) { self.rng.range(5, 9) as u8 } else { self.rng.range(10, 30) as u8 }
+                } else {
+                    self.rng.below(12) as u8
+                };
                 step!(self, Op::SetPsk { node: n as u8, idx, kind });
                 self.hs_faults += 1;
             }
